@@ -6,8 +6,6 @@ import (
 	"math/big"
 	"sort"
 
-	vmcommon "github.com/ElrondNetwork/elrond-vm-common"
-
 	"verifsim/spec"
 	"verifsim/world"
 )
@@ -141,7 +139,7 @@ func (g *Gen) genTx(fam string) *world.TxJSON {
 		if h == nil {
 			return nil
 		}
-		rcv := append([]byte{}, vmcommon.ESDTSCAddress...)
+		rcv := append([]byte{}, spec.ESDTSystemSC...)
 		if g.R.Intn(15) == 0 {
 			rcv = g.anyAccount()
 		}
@@ -324,9 +322,9 @@ func (g *Gen) genTx(fam string) *world.TxJSON {
 		case 2:
 			fn, args = spec.FnWipe, [][]byte{t.ID}
 		case 3:
-			fn, args, rcv = spec.FnPause, [][]byte{t.ID}, vmcommon.SystemAccountAddress
+			fn, args, rcv = spec.FnPause, [][]byte{t.ID}, spec.SystemAccount
 		case 4:
-			fn, args, rcv = spec.FnUnPause, [][]byte{t.ID}, vmcommon.SystemAccountAddress
+			fn, args, rcv = spec.FnUnPause, [][]byte{t.ID}, spec.SystemAccount
 		case 5:
 			fn, args = spec.FnSetRole, [][]byte{t.ID, []byte(world.RolesForKind(t.Kind)[0])}
 			if g.R.Intn(2) == 0 {
@@ -603,7 +601,7 @@ func (g *Gen) genSC(op string) *world.SCAction {
 	case "drop":
 		// a credit message from the metachain: mostly the ESDT system contract, sometimes another
 		// metachain contract (for which no exemption applies)
-		caller := append([]byte{}, vmcommon.ESDTSCAddress...)
+		caller := append([]byte{}, spec.ESDTSystemSC...)
 		if g.R.Intn(3) == 0 {
 			caller = g.W.U.MetaAddrs[g.R.Intn(len(g.W.U.MetaAddrs))]
 		}
